@@ -9,7 +9,9 @@ PROPS["C11"] = {
             "non-trivial = input is a container; distinct by input",
     "assumptions": ["project() in checks/ix_filter.hpp is written from the property statement; truthiness and equals-true follow the library's documented as<bool>()/== true",
                     "memory compared only when the filtered run consumed no more input than the unfiltered one (counting reader)"],
-    "quick": [dict(_C11, args=["--input-nodes=3", "--filter-nodes=3", "--malformed-len=3"])],
+    "quick": [dict(_C11, args=["--input-nodes=3", "--filter-nodes=3", "--malformed-len=3"]),
+              dict(_C11, args=["--input-nodes=2", "--filter-nodes=3", "--malformed-len=2"],
+                   defs=["ARDUINOJSON_SLOT_ID_SIZE=1", "ARDUINOJSON_POOL_CAPACITY=3", "ARDUINOJSON_INITIAL_POOL_COUNT=3"])],
     "thorough": [dict(_C11, args=["--input-nodes=3", "--big-input-nodes=4", "--filter-nodes=3", "--malformed-len=4"])],
     "thorough_deadline": 1800,
 }
